@@ -16,7 +16,7 @@ use std::net::{Ipv4Addr, Ipv6Addr};
 
 pub const META: Meta = Meta {
     level: "exploration",
-    rule: "every demanded address of 1..=4 components over {ip4 a, ip4 b, ip6 c, dns4, tcp, udp, p2p requester, p2p other, p2p-circuit} (7380 addresses) as a single-element list, and every ordered pair of addresses of <= 2 components (8100 lists), each against observed address in {ip4, ip6, dns-only}, through the real filter_valid_addrs. Throttling part: BFS over {dial request from P1/P2/P3, dial-back of P finished ok / failed, advance 500 ms / 1 s} on the real Behaviour. Non-trivial = distinct (observed, list) cases for which at least one address is returned, plus BFS states with at least one accepted probe inside the window.",
+    rule: "every demanded address of 1..=4 components over {ip4 a, ip4 b, ip6 c, dns4, tcp, udp, p2p requester, p2p other, p2p-circuit} (7380 addresses) as a single-element list, and every ordered pair of addresses of <= 2 components (8100 lists), each against observed address in {ip4, ip6, dns-only}, through the real filter_valid_addrs. Throttling part: BFS over {dial request from P1/P2/P3, dial-back of P finished ok / failed, unrelated outbound / inbound connection of P established and closed during its dial-back, advance 500 ms / 1 s} on the real Behaviour. Non-trivial = distinct (observed, list) cases for which at least one address is returned, plus BFS states with at least one accepted probe inside the window.",
     explanation: "Complete enumeration (E3) over the stated component alphabet; every returned address is checked component by component against the statement. Throttling: BFS over histories of the real Behaviour (E2) against a reference model of ongoing dial-backs and accepted-probe timestamps.",
     assumptions: &["component alphabet of 9 representatives, <= 4 components per address, <= 2 addresses per request", "throttling part: 3 requesting peers, one address per request, limits global 2 / per peer 1 / period 1 s, BFS depth 8 (quick) / 11 (thorough); a probe counts for the window in which its ToSwarm::Dial is issued; window = half-open interval of one period"],
 };
@@ -149,7 +149,9 @@ pub fn run(ctx: &Ctx) -> Outcome {
 /// finished; at the moment a probe is accepted (= its Dial is issued) at most `peer_max` probes of
 /// that peer and `global_max` probes in total were accepted within the last period (half-open
 /// window `(t - period, t]`, the lenient reading); a request that is not accepted gets an error
-/// response on its channel (not silence, not success).
+/// response on its channel (not silence, not success); a dial-back that is still in flight keeps its
+/// response channel (an unrelated connection of the peer neither drops nor answers it) and is answered
+/// exactly when it finishes.
 mod throttle {
     use kit::ids::peer;
     use libp2p_autonat::{Behaviour, Config};
@@ -174,12 +176,18 @@ mod throttle {
     static REFUSED_PEER: AtomicU64 = AtomicU64::new(0);
     static REFUSED_GLOBAL: AtomicU64 = AtomicU64::new(0);
     static ACCEPTED_AFTER_WINDOW: AtomicU64 = AtomicU64::new(0);
+    static UNRELATED_CONNS: AtomicU64 = AtomicU64::new(0);
 
     #[derive(Clone, Debug, Serialize, Deserialize, PartialEq)]
     pub enum Act {
         Request(u8),
         DialOk(u8),
         DialFail(u8),
+        /// an unrelated outbound connection to the peer (address not in the dial-back list) is
+        /// established and closed again while its dial-back is ongoing
+        OtherOutbound(u8),
+        /// a further inbound connection from the peer is established and closed again
+        OtherInbound(u8),
         Advance(u64),
     }
 
@@ -272,6 +280,8 @@ mod throttle {
                 if self.ongoing[i as usize].is_some() {
                     v.push(Act::DialOk(i));
                     v.push(Act::DialFail(i));
+                    v.push(Act::OtherOutbound(i));
+                    v.push(Act::OtherInbound(i));
                 }
             }
             v.push(Act::Advance(PERIOD_MS / 2));
@@ -337,6 +347,36 @@ mod throttle {
                         }
                     }
                 }
+                Act::OtherOutbound(i) | Act::OtherInbound(i) => {
+                    let conn = ConnectionId::new_unchecked(self.next_conn);
+                    self.next_conn += 1;
+                    let other: Multiaddr = format!("/ip4/8.8.{}.8/tcp/9999", i + 1).parse::<Multiaddr>().unwrap();
+                    let ep = if matches!(a, Act::OtherOutbound(_)) {
+                        let address = other.clone().with(Protocol::P2p(p(*i)));
+                        let _ = self.b.handle_established_outbound_connection(conn, p(*i), &address, Endpoint::Dialer, PortUse::Reuse);
+                        ConnectedPoint::Dialer { address, role_override: Endpoint::Dialer, port_use: PortUse::Reuse }
+                    } else {
+                        let local: Multiaddr = "/ip4/9.9.9.9/tcp/4001".parse().unwrap();
+                        let _ = self.b.handle_established_inbound_connection(conn, p(*i), &local, &other);
+                        ConnectedPoint::Listener { local_addr: local, send_back_addr: other.clone() }
+                    };
+                    self.b.on_swarm_event(FromSwarm::ConnectionEstablished(ConnectionEstablished { peer_id: p(*i), connection_id: conn, endpoint: &ep, failed_addresses: &[], other_established: 1 }));
+                    self.b.on_swarm_event(FromSwarm::ConnectionClosed(ConnectionClosed { peer_id: p(*i), connection_id: conn, endpoint: &ep, cause: None, remaining_established: 1 }));
+                    let d = self.drain()?;
+                    if !d.is_empty() {
+                        return Err(format!("dial-without-request :: a Dial was issued by {a:?}"));
+                    }
+                    UNRELATED_CONNS.fetch_add(1, SeqCst);
+                    // the ongoing dial-back is not finished by an unrelated connection: its request must
+                    // neither be dropped (silence) nor answered on behalf of an address that was not dialed
+                    if let Some((_, probe)) = self.ongoing[*i as usize].as_mut() {
+                        match probe() {
+                            None => {}
+                            Some(None) => return Err(format!("ongoing-request-dropped-without-response :: {a:?}: the request whose dial-back is still in flight lost its response channel (no response will ever be sent)")),
+                            Some(Some(r)) => return Err(format!("ongoing-request-answered-by-unrelated-connection :: {a:?}: the request whose dial-back is still in flight was answered with {r:?}")),
+                        }
+                    }
+                }
                 Act::DialOk(i) | Act::DialFail(i) => {
                     let Some((addr, mut probe)) = self.ongoing[*i as usize].take() else { return Ok(()) };
                     let conn = ConnectionId::new_unchecked(self.next_conn);
@@ -356,8 +396,10 @@ mod throttle {
                         return Err(format!("dial-without-request :: a Dial was issued when the dial-back of peer {i} finished"));
                     }
                     // harness sanity (the dial-back the model believes in must be the one the server tracks)
-                    if probe().is_none() {
-                        return Err(format!("HARNESS dial-back result not attributed :: peer {i}: {a:?} with address {addr} left the request unanswered"));
+                    // exactly one response: the finished dial-back answers the request now
+                    match probe() {
+                        Some(Some(_)) => {}
+                        other => return Err(format!("dial-back-finished-without-response :: peer {i}: {a:?} (address {addr}) finished the dial-back but the request's response channel holds {other:?}")),
                     }
                 }
             }
@@ -396,7 +438,8 @@ mod throttle {
         out.count("throttle_refused_per_peer_limit", REFUSED_PEER.load(SeqCst));
         out.count("throttle_refused_global_limit", REFUSED_GLOBAL.load(SeqCst));
         out.count("throttle_accepted_again_after_window", ACCEPTED_AFTER_WINDOW.load(SeqCst));
-        if ACCEPTED.load(SeqCst) == 0 || REFUSED_ONGOING.load(SeqCst) == 0 || REFUSED_PEER.load(SeqCst) == 0 || REFUSED_GLOBAL.load(SeqCst) == 0 || ACCEPTED_AFTER_WINDOW.load(SeqCst) == 0 {
+        out.count("throttle_unrelated_connections_during_dial_back", UNRELATED_CONNS.load(SeqCst));
+        if ACCEPTED.load(SeqCst) == 0 || REFUSED_ONGOING.load(SeqCst) == 0 || REFUSED_PEER.load(SeqCst) == 0 || REFUSED_GLOBAL.load(SeqCst) == 0 || ACCEPTED_AFTER_WINDOW.load(SeqCst) == 0 || UNRELATED_CONNS.load(SeqCst) == 0 {
             out.machinery("vacuity (throttling): exploration did not reach every one of: accepted probe / refusal while ongoing / per-peer limit / global limit / re-acceptance after the window");
         }
         let ddepth = ctx.tier.pick(4, 5);
